@@ -10,15 +10,19 @@ def nontrivial(d):
         return len(d["moves"]) >= 1
     if k == "sl":
         return True
+    if k == "vec":
+        return any(nontrivial(x) for x in d["sims"])
+    if k == "relist":
+        return True
     return len(d["v"]) >= 3 and any(x > 0 for x in d["v"])
 
 
-def _bump(ev, path, delta, expect, mode="ss", pred=None):
+def _bump(ev, path, delta, expect, mode="ss", pred=None, res=None):
     """Adds `delta` to one field of one recorded step (k >= 2) of a run of the given mode whose trace is non-negative."""
     hdr = None
     for i, e in enumerate(ev):
         if e.get("ev") == "Hdr":
-            hdr = e if (e["mode"] == mode and all(v >= 0 for v in e["tv"])) else None
+            hdr = e if (e["mode"] == mode and all(v >= 0 for v in e["tv"]) and res in (None, e.get("res"))) else None
         elif e.get("ev") == "begin":
             hdr = None
         elif e.get("ev") == "Step" and hdr is not None and e["k"] >= 2 and (pred is None or pred(e)):
@@ -38,10 +42,47 @@ def _bump_get(ev, key, idx, delta, expect):
     return None
 
 
+def _bump_vec(ev, key, delta, expect):
+    for i, e in enumerate(ev):
+        if e.get("ev") == "GetVec":
+            e[key][2] += delta
+            return ev, i, expect
+    return None
+
+
+_RES = ("bel", "hybrid")
+
+
+def _nres(units):
+    return sum(1 for u in units if u.get("kind", "conv") in _RES)
+
+
+def _stale_count(c):
+    return isinstance(c, dict) and "units" in c and c.get("ctor") == "new" and "units0" in c and _nres(c["units0"]) != _nres(c["units"])
+
+
+def sig_stale_res_count(desc, events, inv):
+    """F-C11-1: a consist made by Consist::new whose number of battery-equipped units was changed through set_loco_vec;
+    only the two unit-kilometre outputs."""
+    if inv not in ("GetResKm", "GetNonResKm"):
+        return False
+    k = desc.get("kind", "ss")
+    if k == "vec":
+        return any(_stale_count(d.get("consist")) for d in desc["sims"])
+    if k == "locate":
+        s = sum(desc["pos"]) + 7 * len(desc["lens"])      # expand_locate: Consist::new with one diesel, then given a hybrid
+        return s % 140 == 0
+    if k == "relist":                                     # TLC-emitted (Consist::new list, set_loco_vec list)
+        return sum(desc["u0"]) != sum(desc["u"])
+    return k == "ss" and _stale_count(desc.get("consist"))
+
+
 RULE = ("cases = every finished behaviour of the bounded Level-B models of TrainSim.tla (route x front-position "
         "sequence replayed as a real set-speed run; elevation profile x train length x Fwd/Unk/Bwd move sequence "
         "replayed into the real path_res::Strap) + seeded toy-scale dyadic set-speed runs (random routes, car mixes, "
-        "consists, irregular time stamps, negative speeds) + seeded realistic-scale speed-limited runs; distinct = "
+        "consists incl. make-ups changed through set_loco_vec, irregular time stamps, negative speeds, demands beyond "
+        "the consist's limits with and without limit assertions, vectors of 1-3 runs) + seeded realistic-scale "
+        "speed-limited runs (mid-route starts, departure times, step sizes); distinct = "
         "distinct case descriptors (sha256); non-trivial = the train moves / at least one move")
 
 A_COMMON = ["the harness projects saved state after every step() (save_interval Some(1)); the projection divides by "
@@ -66,13 +107,15 @@ GROUP = dict(
                   dict(cfg="MCTrainSim_strapE.cfg", emit=True, max_emit=4000),
                   dict(cfg="MCTrainSim_strapQ3.cfg", emit=False),
                   dict(cfg="MCTrainSim_ledger.cfg", emit=False),
-                  dict(cfg="MCTrainSim_fault.cfg", emit=False)],
+                  dict(cfg="MCTrainSim_fault.cfg", emit=False),
+                  dict(cfg="MCTrainSim_relist.cfg", emit=True)],
         "thorough": [dict(cfg="MCTrainSim_locateT.cfg", emit=True, max_emit=12000),
                      dict(cfg="MCTrainSim_strapE.cfg", emit=True),
                      dict(cfg="MCTrainSim_strapQ.cfg", emit=False, workers=12, timeout=900),
                      dict(cfg="MCTrainSim_strapT.cfg", emit=False, workers=12, timeout=1800),
                      dict(cfg="MCTrainSim_ledger.cfg", emit=False),
-                     dict(cfg="MCTrainSim_fault.cfg", emit=False)],
+                     dict(cfg="MCTrainSim_fault.cfg", emit=False),
+                     dict(cfg="MCTrainSim_relist.cfg", emit=True)],
     },
     gen_n={"quick": 320, "thorough": 2560},
     per_case_ms=30000,
@@ -89,20 +132,27 @@ GROUP = dict(
                                 "NoPanic", "QOverflow", "HarnessOk"],
                     assumptions=A_COMMON + A_TOY),
         "C07": dict(invariants=["ResTowed", "ResMass", "ResWeight", "ResRolling", "ResBearing", "ResDavisB", "ResAero",
-                                "ResGrade", "ResCurve", "ResElevFront", "ResGradeFront", "ResGradeBack", "StrapOk",
+                                "ResGrade", "ResGradePoint", "ResCurve", "ResElevFront", "ResGradeFront", "ResGradeBack", "StrapOk",
                                 "QOverflow", "HarnessOk"],
                     assumptions=A_COMMON + A_TOY + [
                         "the cumulative curve resistance is the path's own curve table (C06 checks it against the network); "
                         "toy curves stay below one degree per 100 ft so that it is on the lattice",
-                        "a force record may match the definition at the state saved one step earlier or at its own state"]),
+                        "a force record may match the definition at the state saved one step earlier or at its own state",
+                        "runs under TrainRes::Point (assembled through SetSpeedTrainSim::new from the builder's parts): the "
+                        "method-independent clauses (mass, weight, rolling, Davis-B, bearing, aero) and the grade at the train's "
+                        "mid-point; its curve force and its elev_front / grade_front / grade_back fields are not judged (the C07 "
+                        "text defines them over the train's length / at its ends, which is the Strap method)"]),
         "C11": dict(invariants=["LedPwrTrainConsist", "LedPwrConsistLocos", "LedEnergyOut", "LedEnergyPos", "LedEnergyNeg",
-                                "LedFuel", "LedRes", "GetPlain", "GetAnnual", "GetMgKm", "QOverflow", "HarnessOk"],
+                                "LedFuel", "LedRes", "GetPlain", "GetAnnual", "GetMgKm", "GetResKm", "GetNonResKm",
+                                "VecFuel", "VecRes", "VecMgKm", "VecKm", "VecResKm", "VecNonResKm", "QOverflow", "HarnessOk"],
                     assumptions=A_COMMON + A_SL + [
                         "almost_eq of the code (1e-8 relative / absolute) widened by the quantisation of both sides",
                         "getters are read with simulation_days = Some(days); the None default is not asserted"]),
     },
-    sigs={},
-    fault_models=[],   # the fault config (MCTrainSim_fault.cfg) is a positive invariant (FaultDetected) of the regular tiers
+    sigs={"stale_res_count": sig_stale_res_count},
+    # the make-up model with the count of battery units cached at Consist::new (the code as it is) re-finds F-C11-1
+    fault_models=[dict(cfg="MCTrainSim_relistC.cfg", expect=["RelistResKm", "RelistNonResKm"])],
+    # the ledger fault config (MCTrainSim_fault.cfg) is a positive invariant (FaultDetected) of the regular tiers
     selftest_cases=32,
     corrupt={
         "front_offset": lambda ev: _bump(ev, ["x"], 1, ["KinOffset"]),
@@ -112,13 +162,17 @@ GROUP = dict(
         "accel_power": lambda ev: _bump(ev, ["pan"], 1, ["PwrAccel"]),
         "wheel_power": lambda ev: _bump(ev, ["pw"], 1000, ["PwrClip"]),
         "wheel_energy": lambda ev: _bump(ev, ["e"], 100, ["PwrEnergy"]),
-        "grade_force": lambda ev: _bump(ev, ["rgl"], 1, ["ResGrade"]),
-        "rear_grade": lambda ev: _bump(ev, ["gb"], 1, ["ResGradeBack"]),
+        "grade_force": lambda ev: _bump(ev, ["rgl"], 1, ["ResGrade"], res="strap"),
+        "point_grade_force": lambda ev: _bump(ev, ["rgl"], 1, ["ResGradePoint"], res="point"),
+        "rear_grade": lambda ev: _bump(ev, ["gb"], 1, ["ResGradeBack"], res="strap"),
         "aero_force": lambda ev: _bump(ev, ["ae"], 1, ["ResAero"]),
         "consist_energy": lambda ev: _bump(ev, ["c", "e"], 100, ["LedEnergyOut"]),
         "fuel_getter": lambda ev: _bump(ev, ["c", "gef"], 100, ["LedFuel"]),
         "sl_consist_power": lambda ev: _bump(ev, ["c", "out"], 100, ["LedPwrTrainConsist"], mode="sl"),
         "annual_km": lambda ev: _bump_get(ev, "km", 1, 5000, ["GetAnnual"]),
+        "res_km": lambda ev: _bump_get(ev, "reskm", 0, 5000, ["GetResKm"]),
+        "vec_fuel": lambda ev: _bump_vec(ev, "fuel", 5000, ["VecFuel"]),
+        "vec_nonres_km": lambda ev: _bump_vec(ev, "nonreskm", 5000, ["VecNonResKm"]),
     },
 )
 
@@ -135,7 +189,10 @@ def _vacuity(r):
         return None
     s = r["stats"]
     need = dict(ss_steps=200, sl_steps=100, clipped=5, unclipped=50, braking=20, boundary=20, multilink=5,
-                astride=50, curved=20, negerr=5, strap=200, getters=1)
+                astride=50, curved=20, negerr=5, strap=200, getters=1,
+                # (counts of what the runs were given: re-listed consists, limit assertions off, demands beyond the
+                # published limits, departure times, vectors of simulations)
+                relisted=10, relisted_res=3, point_steps=100, point_graded=50, nolim=5, clip_hi=30, clip_lo=30, nolim_clip=10, sl_t0=2, vecs=5, vec_multi=3)
     low = [f"{k}={s.get(k, 0)}<{v}" for k, v in need.items() if s.get(k, 0) < v]
     if low:
         return "the recorded runs do not exercise: " + ", ".join(low)
@@ -153,7 +210,8 @@ GROUP["vacuity"] = _vacuity
 ENGINE = dict(name="TrainSim", path="specs/TrainSim.tla", serves_properties=["C07", "C11", "C12", "C14"],
               kind_free_text="TLA+ spec (Level A: kinematics / power / resistance / ledger relations over header + two saved "
                              "steps; Level B: set_link_and_offset on the half-integer lattice, the two cached indices of "
-                             "path_res::Strap with LinSearchHint::calc_idx, a three-level accumulator with fault injection), "
+                             "path_res::Strap with LinSearchHint::calc_idx, a three-level accumulator with fault injection, the consist's make-up under Consist::new / set_loco_vec "
+                             "with the unit-kilometre outputs), "
                              "TLC exhaustive on the bounded models, every finished behaviour replayed into real set-speed runs / "
                              "the real Strap, recorded steps of set-speed and speed-limited runs validated by TLC "
                              "(TrainSimTrace.tla)")
@@ -182,7 +240,10 @@ MANIFEST = {
                      "and the sequences are replayed into the real Strap.", note=_NOTE),
     "C11": dict(engine="TrainSim", design_ref="3 (C11)", technique=_TECH,
                 text="On every saved step of set-speed and speed-limited runs TLC compares train, consist and summed-locomotive "
-                     "power and cumulative energies (out, pos, neg, fuel, battery) and the consist getters; at the end of "
-                     "speed-limited runs the trip getters against the totals and the 365.25/days factor. A three-level accumulator "
+                     "power and cumulative energies (out, pos, neg, fuel, battery) and the consist getters (also for consists whose "
+                     "make-up was changed through set_loco_vec after Consist::new); at the end of every finished run the trip "
+                     "getters against the totals and the 365.25/days factor, battery-unit / other-unit kilometres against distance x "
+                     "the unit counts of the recorded make-up, and the outputs of a SpeedLimitTrainSimVec of 1-3 finished runs "
+                     "against the sums of the runs' own outputs. A three-level accumulator "
                      "model shows the equalities inductive and violated by any skipped update (fault config).", note=_NOTE),
 }
